@@ -817,10 +817,10 @@ func (r *rewriter) isExternalBlocking(ce *ast.CallExpr) bool {
 }
 
 var sqlRecv = map[string]bool{
-	"*database/sql.DB": true,
-	"*database/sql.Tx": true,
+	"*database/sql.DB":   true,
+	"*database/sql.Tx":   true,
 	"*database/sql.Rows": true,
-	"*database/sql.Row": true,
+	"*database/sql.Row":  true,
 	"github.com/samsarahq/thunder/sqlgen.QueryExecer": true,
 }
 
